@@ -18,6 +18,8 @@ the fitted models from a table and instantiates `spec` with its spectra.  `Lemma
 proves that for EVERY history of reads and `set_input`s each read returns what a fresh analyzer on
 the current input returns.
 -/
+import Nitime.Generated.GrangerAttrs
+
 namespace Nitime.GrangerObj
 
 /-- the analyzer's state: current input and the three one-time entries of the instance dict -/
@@ -93,4 +95,84 @@ def ref : List (Op D) → D → List (Out R G A)
   | .readFreqs :: os, d => .freqs (axis d) :: ref os d
 
 end
+/-! ### `_model` as a loop over the pairs that may FAIL part-way (L7)
+
+`_model` calls `fit_model` pair by pair; for `order=None` each call may raise `ValueError` (criterion never rises below
+`max_order`) after earlier pairs were fitted.  Today's loop collects into a LOCAL dict, so a failed read leaves nothing
+behind.  `keep = true` is the other discipline (seed C15-10): the per-pair fits go to a plain instance attribute
+(`kept`, not a one-time attribute, hence not cleared by `reset()` / `set_input`), pairs found there are skipped, and
+the attribute is deleted only when the loop completes.  Which one the source has is GENERATED
+(`Generated/GrangerAttrs.lean`: the instance attributes written outside `__init__` / `set_input` that are not one-time
+properties; today none, so `keepPartial = false`). -/
+
+/-- the discipline the SOURCE has: partial fits are kept iff `_model` writes a surviving instance attribute (generated) -/
+def keepPartial : Bool :=
+  !Nitime.Generated.GrangerAttrs.survivors.isEmpty || !Nitime.Generated.GrangerAttrs.modelAccumulatorIsLocal
+
+structure ObjK (D P F : Type) where
+  input : D
+  model : Option (List (P × F))
+  kept : List (P × F)
+
+inductive OpK (D : Type) where
+  | setInput (d : D)
+  | readModel
+
+inductive OutK (P F : Type) where
+  /-- `none` = the read raised -/
+  | model (r : Option (List (P × F)))
+  | done
+
+section
+variable {D P F : Type} [DecidableEq P] (pairs : D → List P) (fit1 : D → P → Option F)
+
+/-- what a fresh analyzer's `_model` returns on input `d`: every pair fitted, in `ij` order; the first failure propagates -/
+def fitList (d : D) : List P → Option (List (P × F))
+  | [] => some []
+  | p :: ps =>
+    match fit1 d p with
+    | none => none
+    | some f =>
+      match fitList d ps with
+      | none => none
+      | some l => some ((p, f) :: l)
+
+/-- the loop with its accumulator `k`; result = (accumulator at exit, completed?) -/
+def loopK (keep : Bool) (d : D) : List P → List (P × F) → List (P × F) × Bool
+  | [], k => (k, true)
+  | p :: ps, k =>
+    if keep && k.any (fun e => decide (e.1 = p)) then loopK keep d ps k else
+    match fit1 d p with
+    | some f => loopK keep d ps (k ++ [(p, f)])
+    | none => (k, false)
+
+def constructK (d : D) : ObjK D P F := ⟨d, none, []⟩
+
+/-- `reset()` deletes the one-time attributes only -/
+def setInputK (d : D) (s : ObjK D P F) : ObjK D P F := ⟨d, none, s.kept⟩
+
+def readModelK (keep : Bool) (s : ObjK D P F) : ObjK D P F × Option (List (P × F)) :=
+  match s.model with
+  | some m => (s, some m)
+  | none =>
+    let r := loopK fit1 keep s.input (pairs s.input) (if keep then s.kept else [])
+    if r.2 then ({ s with model := some r.1, kept := [] }, some r.1)
+    else ({ s with kept := if keep then r.1 else [] }, none)
+
+def stepK (keep : Bool) (s : ObjK D P F) : OpK D → ObjK D P F × OutK P F
+  | .setInput d => (setInputK d s, .done)
+  | .readModel => let r := readModelK pairs fit1 keep s; (r.1, .model r.2)
+
+def runK (keep : Bool) : List (OpK D) → ObjK D P F → List (OutK P F)
+  | [], _ => []
+  | o :: os, s => let r := stepK pairs fit1 keep s o; r.2 :: runK keep os r.1
+
+/-- the reference: every read answered by a fresh analyzer on the input current at that time -/
+def refK : List (OpK D) → D → List (OutK P F)
+  | [], _ => []
+  | .setInput d :: os, _ => .done :: refK os d
+  | .readModel :: os, d => .model (fitList fit1 d (pairs d)) :: refK os d
+
+end
+
 end Nitime.GrangerObj
